@@ -29,10 +29,13 @@ W vf_try(void *fn, int n, W *a, int *out) {
 	volatile int inside_ok = 1;
 	ctx_t *ctx = core_get();
 	sts_t *before = ctx->last;
+	sts_t *volatile mine = NULL;
 	out[0] = out[1] = 0; out[2] = 1; out[3] = 1; out[4] = 0;
 	if (n < 0 || n > 18) { out[0] = -99; return 0; }
 	vf_heap_before = vf_heap_now();
 	RLC_TRY {
+		/* the record of this block, taken from the context (no macro-internal name is used) */
+		mine = core_get()->last;
 		switch (n) {
 		case 0: r = ((W(*)(void))fn)(); break;
 		case 1: r = ((W(*)(W))fn)(a[0]); break;
@@ -55,7 +58,7 @@ W vf_try(void *fn, int n, W *a, int *out) {
 		case 18: r = ((W(*)(W,W,W,W,W,W,W,W,W,W,W,W,W,W,W,W,W,W))fn)(a[0],a[1],a[2],a[3],a[4],a[5],a[6],a[7],a[8],a[9],a[10],a[11],a[12],a[13],a[14],a[15],a[16],a[17]); break;
 		}
 		/* the callee has returned normally: the innermost frame must be ours again */
-		inside_ok = (core_get()->last == &_this);
+		inside_ok = (core_get()->last == mine && mine != before && mine != NULL);
 	} RLC_CATCH(e) {
 		out[0] = 1;
 		out[1] = (int)e;
